@@ -230,3 +230,8 @@ static void expand_array(void)
     }
 }
 
+
+#if defined(PARSEC_VERIF)
+/* Verification hook: see parsec/include/parsec/sys/atomic.h */
+void (*parsec_verif_yield_cb)(int kind, volatile void *addr) = NULL;
+#endif  /* defined(PARSEC_VERIF) */
